@@ -161,6 +161,31 @@ def inburn_lists(R, tier):
     return out
 
 
+def special_burn_lists(R, tier):
+    """(list, queries) pairs outside the regular enumeration:
+    * burns given by dv= lasting one day or more (only where a day is within the +-2 periods of the quantifier: GEO-class targets);
+    * burns whose start offset equals their duration (two consecutive internal steps of identical length), queried at
+      twice the start, at the end of the burn and after it."""
+    P = 2 * math.pi / mean_motion(R)
+    out = []
+    if 2 * P >= 93600.0:
+        for dur in (93600.0, us(1.5 * P)):
+            for pos in ("start", "median"):
+                for axis in range(3):
+                    vec = [0.0, 0.0, 0.0]
+                    vec[axis] = 2e-6 * (axis + 1)
+                    m = [dict(type="C", start=300.5, dur=dur, vec=vec, spec="dv", pos=pos)]
+                    out.append((m, [us(300.5 + dur / 2), us(300.5 + dur), us(300.5 + dur + 1000.0)]))
+    for start, dur in ((600.0, 600.0), (60.0, 60.0), (60.0, 450.125), (us(P / 8), us(P / 8))):
+        for axis in range(3):
+            vec = [0.0, 0.0, 0.0]
+            vec[axis] = 2e-4 * (axis + 1)
+            for spec in ("accel", "dv"):
+                m = [dict(type="C", start=start, dur=dur, vec=vec, spec=spec, pos="start")]
+                out.append((m, sorted(set([us(2 * start), us(start + dur), us(start + dur + 500.0)]))))
+    return out
+
+
 def edges(mans):
     e = []
     for m in mans:
@@ -1018,6 +1043,26 @@ def check_order(case, t):
             return
         # information only: the label carried by the result (an orbit built with frame='Hill' takes the HillFrame registered last)
         t.outcome(("order-label", orient, r.frame.name))
+        # objects carrying a COPY of the propagator: Orbit.copy(), and (free flight only, see the known finding on
+        # maneuvers dated before an orbit's epoch) the orbit returned by propagate(): chained on to 2q and back to the epoch
+        via = [("orbit-copy", lambda: orbs[k].copy().propagate(_date(q)), ref, L, g)]
+        if not mans:
+            L2, g2 = size(R, s, mans, 2 * q)
+            via.append(("chained", lambda: r.propagate(_date(us(2 * q))), ref_state(R, s, mans, us(2 * q)), L2 + L * 13, g2 + g))
+            via.append(("back-to-epoch", lambda: r.propagate(_date(0.0)), np.asarray(s, dtype=float), L * 13, 2 * g))
+        for name, call, want, Lx, gx in via:
+            try:
+                rr = call()
+                t.trans()
+            except Exception as ex:
+                t.fail(f"cw.order/{orient}-propagator/{name}/raises", clause, case, "a state", repr(ex))
+                return
+            gg = M6.T @ np.array(rr, dtype=float)
+            e = max(np.max(np.abs(gg[:3] - want[:3])) / Lx, np.max(np.abs(gg[3:] - want[3:])) / (Lx * n))
+            if not t.margin("CW vs integrated Hill eq., copied propagators [rel. to size of terms]", e if np.isfinite(e) else float("inf"), REL * gx, case):
+                t.fail(f"cw.order/{orient}-propagator/{name}", clause, case, M6 @ want, np.array(rr, dtype=float),
+                       f"{orient} propagator, {name}: scaled error {e:.3e}")
+                return
 
 
 # ---------------------------------------------------------------------------
@@ -1114,6 +1159,13 @@ def run_unit(p, t):
                 check_case(dict(kind="compose", R=R, orient=orient, s=s, mans=mans, q1=q1, q2=end), t)
             if li % 50 == 0:
                 t.sample(dict(kind="agree", R=R, orient=orient, s=s, mans=mans, q=qs[-1]))
+        if p["half"] == 0:
+            s = s_alpha[-1]
+            for mans, qs in special_burn_lists(R, tier):
+                for q in qs:
+                    check_case(dict(kind="agree", R=R, orient=orient, s=s, mans=mans, q=q), t)
+                    if orient == "QSW":
+                        check_case(dict(kind="perm", R=R, s=s, mans=mans, q=q), t)
     elif p["part"] == "order":
         cs = order_cases(R, tier)
         for c in cs[p["chunk"] :: p["of"]]:
